@@ -12,6 +12,7 @@ from mc.core import Result, SubCheck
 PROPERTY = "C12"
 ASSUMPTIONS = [
     "base problems: lattice stream multisets (K=3) x <=2 zones x {no utilities, a ladder with distinct levels}; plus a zero-crossing lattice (contains 0.0 and a negative temperature) with a gliding inside-range cold utility whose target is exactly 0.0 and with one header entered as separate hot and cold utilities of the same level",
+    "a 7-level ladder (per side: an isothermal level inside the range, a gliding level spanning a process breakpoint above it, a level beyond the range; the cold gliding levels nested) on all multisets of <=2 (quick) / <=3 (thorough) streams",
     "for every base problem ALL generators are applied: every permutation of the stream list, the split of every stream at every interior lattice point, a 1/4+3/4 parallel split of every stream, "
     "every renaming/reordering of the zones from a 3-name alphabet, translations {+37.5,-100,+1000,+0.1,+273.15}, duty scalings {x0.25,x3,x100}, mirroring of the temperature axis with hot/cold swap",
     "graph data are compared for permutation, split, renaming, translation and scaling (points mapped by the same transformation, 0.011 display tolerance)",
@@ -45,8 +46,21 @@ def ladder_c(inst):
             u("CW", "Cold", T[0] - 2 * step, T[0] - 2 * step)]
 
 
+def ladder_d(inst):
+    """three levels per side: an isothermal level inside the range, a GLIDING level that spans a process breakpoint and is not the first one
+    placed, an isothermal level beyond the range; on the cold side the two gliding levels are NESTED (ordering by inlet and by outlet disagree)"""
+    T = A.lattice(inst, 3)
+    step, d = inst[1], inst[3] / 2
+    u = A.utility_dict
+    return [u("LP", "Hot", T[1] + d, T[1] + d, dt=d), u("HOil", "Hot", T[2] + 2 * step, T[1] + step / 2, dt=d), u("VHP", "Hot", T[2] + 3 * step, T[2] + 3 * step),
+            u("WW", "Cold", T[1] - d, T[1] - d, dt=d), u("TW", "Cold", T[0] - 2 * step, T[1] - step / 2, dt=d),
+            u("CHW", "Cold", T[0] - step, T[0] - step / 2, dt=d), u("REF", "Cold", T[0] - 3 * step, T[0] - 3 * step)]
+
+
 def bases(tier, inst):
     yield from bases_main(tier, inst)
+    for ms in P.stream_multisets(inst, 3, 2 if tier == "quick" else 3, cps=(1, 2), dts=(1,), iso=(tier == "thorough")):
+        yield {"streams": ms, "zones": ["A"] * len(ms), "uset": 4, "inst": list(inst)}
     # zero-crossing lattice (contains 0.0 and a negative temperature) with the two extra ladders
     z = A.zero_inst(inst)
     for ms in P.stream_multisets(z, 3, 2, cps=(1, 2), dts=(1,), iso=(tier == "thorough")):
@@ -80,7 +94,7 @@ def bases_main(tier, inst):
 
 def build(case):
     inst = tuple(case["inst"])
-    us = {0: [], 1: ladder(inst), 2: ladder_b(inst), 3: ladder_c(inst)}[case["uset"]]
+    us = {0: [], 1: ladder(inst), 2: ladder_b(inst), 3: ladder_c(inst), 4: ladder_d(inst)}[case["uset"]]
     return A.problem([tuple(s) for s in case["streams"]], case["zones"], utilities=us)
 
 
@@ -89,7 +103,7 @@ def twins(case, prob):
     inst = tuple(case["inst"])
     n = len(prob["streams"])
     T = A.lattice(inst, 3)
-    light = case["uset"] >= 2      # the zero-crossing family: translations, scalings, mirror, utility order and zone renaming only
+    light = case["uset"] in (2, 3)      # the zero-crossing family: translations, scalings, mirror, utility order and zone renaming only
     # permutations
     for perm in itertools.permutations(range(n)):
         if list(perm) == list(range(n)) or light:
@@ -303,7 +317,7 @@ SUBCHECKS = {
         describe="pinch_analysis_service on every base problem and on every twin the transformation group generates; pairwise relation on every record and on graph data",
         rule="case = base problem; transitions = 1 + number of twins; non-trivial = >=3 twins that are not literally identical to the base; outcomes = distinct base results",
         cases=bases, run=run,
-        bound=lambda t: "multisets <=2 (18 types) + 3-multisets (6 types), <=2 zones, {no utilities, 4-level ladder}, all generators; zero-crossing lattice with two further ladders under translations / scalings / mirror / renaming" if t == "quick"
+        bound=lambda t: "multisets <=2 (18 types) + 3-multisets (6 types), <=2 zones, {no utilities, 4-level ladder}, all generators; zero-crossing lattice with two further ladders under translations / scalings / mirror / renaming; a 7-level ladder with gliding, nested and inside-range levels under all generators" if t == "quick"
         else "multisets <=2 (36 types) + 3-multisets (18 types), <=2 zones, {none, ladder}, all generators",
     ),
 }
